@@ -165,7 +165,13 @@ func (f *fakeFile) GetNextRegionOffset(offset int64, regionType filesystem.Regio
 		return 0, io.EOF
 	}
 	if regionType == filesystem.Data {
-		return offset, nil
+		// Trailing zero bytes count as a hole.
+		for i := int(offset); i < len(f.data); i++ {
+			if f.data[i] != 0 {
+				return int64(i), nil
+			}
+		}
+		return 0, io.EOF
 	}
 	return int64(len(f.data)), nil
 }
@@ -188,6 +194,7 @@ type Env struct {
 	Files     virtual.FileAllocator
 	Symlinks  virtual.SymlinkFactory
 	Root      virtual.PrepopulatedDirectory
+	newRoot   func() virtual.PrepopulatedDirectory
 
 	// OnRemoval, if set, is called from the FUSE removal notifier (i.e.
 	// while the code under test is executing, without any directory lock
@@ -234,11 +241,20 @@ func NewEnv(cfg Config) *Env {
 	if cfg.CaseInsensitive {
 		normalizer = virtual.CaseInsensitiveComponentNormalizer
 	}
-	e.Root = virtual.NewInMemoryPrepopulatedDirectory(
-		e.Files, e.Symlinks, e.Log, e.Handles, sorter, hidden, e.Clock, normalizer,
-		DefaultAttributesSetter, virtual.NoNamedAttributesFactory)
+	e.newRoot = func() virtual.PrepopulatedDirectory {
+		return virtual.NewInMemoryPrepopulatedDirectory(
+			e.Files, e.Symlinks, e.Log, e.Handles, sorter, hidden, e.Clock, normalizer,
+			DefaultAttributesSetter, virtual.NoNamedAttributesFactory)
+	}
+	e.Root = e.newRoot()
 	return e
 }
+
+// NewRoot creates the root of another hierarchy ("file system") that shares
+// all collaborators (handle allocator, file allocator, ...) with the first
+// one, as the output paths of bb_clientd do. Directories cannot be renamed
+// from one hierarchy into another; leaves can.
+func (e *Env) NewRoot() virtual.PrepopulatedDirectory { return e.newRoot() }
 
 // SymlinksShared tells whether two symbolic links with the same target are
 // one and the same node (NFS handle allocator: stateless leaves are
